@@ -1,5 +1,129 @@
-(* STUB: Impl model of hmat.rs -- to be written *)
-From Coq Require Import NArith List.
-From ACPI Require Import Lib.Bytes Lib.Sx Lib.Machine Impl.Checksum Impl.Table Impl.Fields Impl.Run.
+(* Impl model of hmat.rs (case vocabulary: see Spec/HmatS.v) *)
+From Coq Require Import NArith List Bool.
+From ACPI Require Import Lib.Bytes Lib.Sx Lib.Machine Impl.Checksum Impl.Table Impl.Fields Impl.Run Impl.Madt.
 Import ListNotations.
-Definition hmat_case (md : mode) (c : sx) : list ev := [EvPanic].
+Open Scope N_scope.
+
+(* ---- MemoryProximityDomain: #[repr(C, packed)] struct, serialised with as_bytes() ---- *)
+(* type U16, _reserved0 U16, length U32, flags U16, _reserved1 U16, initiator U32, memory U32, _reserved2 [u8; 20] *)
+Definition mem_prox (initiator memory : N) : flds :=
+  [F 2 0; F 2 0; F 4 40; F 2 1; F 2 0; F 4 initiator; F 4 memory] ++ fbytes (repeatN 0 20).
+
+(* ---- SystemLocality ---- *)
+Record sysloc := {
+  sl_flags : N;              (* u8 *)
+  sl_dt : N;                 (* DataType as u8 *)
+  sl_mts : N;                (* MinTransferSize as u8 *)
+  sl_unit : N;               (* entry_base_unit u64 *)
+  sl_inits : list N;         (* Vec<u32> *)
+  sl_targets : list N;       (* Vec<u32> *)
+  sl_entries : list N        (* Vec<u16> *)
+}.
+
+Definition hm_len {A} (l : list A) : N := N.of_nat (length l).
+
+(* SystemLocality::new: vec![0; ni], vec![0; nt], vec![0xffff; ni * nt]  (usize multiplication).
+   The allocation limits of Vec are outside the model. *)
+Definition sysloc_new (md : mode) (loc_type dt mts unit ni nt : N) : option sysloc :=
+  do cnt <- mul_m md U64 ni nt;
+  Some {| sl_flags := cast U8 loc_type; sl_dt := dt; sl_mts := mts; sl_unit := unit;
+          sl_inits := repeatN 0 (N.to_nat ni); sl_targets := repeatN 0 (N.to_nat nt);
+          sl_entries := repeatN 0xffff (N.to_nat cnt) |}.
+
+Definition sl_with_flags (s : sysloc) (f : N) : sysloc :=
+  {| sl_flags := f; sl_dt := sl_dt s; sl_mts := sl_mts s; sl_unit := sl_unit s;
+     sl_inits := sl_inits s; sl_targets := sl_targets s; sl_entries := sl_entries s |}.
+Definition sl_with_inits (s : sysloc) (l : list N) : sysloc :=
+  {| sl_flags := sl_flags s; sl_dt := sl_dt s; sl_mts := sl_mts s; sl_unit := sl_unit s;
+     sl_inits := l; sl_targets := sl_targets s; sl_entries := sl_entries s |}.
+Definition sl_with_targets (s : sysloc) (l : list N) : sysloc :=
+  {| sl_flags := sl_flags s; sl_dt := sl_dt s; sl_mts := sl_mts s; sl_unit := sl_unit s;
+     sl_inits := sl_inits s; sl_targets := l; sl_entries := sl_entries s |}.
+Definition sl_with_entries (s : sysloc) (l : list N) : sysloc :=
+  {| sl_flags := sl_flags s; sl_dt := sl_dt s; sl_mts := sl_mts s; sl_unit := sl_unit s;
+     sl_inits := sl_inits s; sl_targets := sl_targets s; sl_entries := l |}.
+
+(* v[idx] = x : panics when idx is out of range *)
+Definition hm_vec_set (l : list N) (idx x : N) : option (list N) :=
+  if idx <? hm_len l then Some (upd l (N.to_nat idx) x) else None.
+
+(* set_entry_value: assert!(i < initiators.len() && j < targets.len()); entries[i * targets.len() + j] = value *)
+(* the usize product/sum cannot overflow after the assert: i * T + j < I * T, the length of a vector that exists
+   (or, when the product of `new` wrapped in release, the index check of entries[..] refuses) *)
+Definition sysloc_set_entry (s : sysloc) (i j v : N) : option sysloc :=
+  do _ <- assert ((i <? hm_len (sl_inits s)) && (j <? hm_len (sl_targets s)));
+  do e <- hm_vec_set (sl_entries s) (i * hm_len (sl_targets s) + j) v;
+  Some (sl_with_entries s e).
+
+Definition sysloc_builder (s : sysloc) (o : sx) : option sysloc :=
+  match o with
+  | SL [SA 1] => Some (sl_with_flags s (N.lor (sl_flags s) 0x20))            (* non_sequential_transfers *)
+  | SL [SA 2] => Some (sl_with_flags s (N.lor (sl_flags s) 0x10))            (* minimum_transfer_size_required *)
+  | SL [SA 3; SA idx; SA v] => option_map (sl_with_inits s) (hm_vec_set (sl_inits s) idx v)       (* set_initiator_value *)
+  | SL [SA 4; SA idx; SA v] => option_map (sl_with_targets s) (hm_vec_set (sl_targets s) idx v)   (* set_target_value *)
+  | SL [SA 5; SA i; SA j; SA v] => sysloc_set_entry s i j v                                   (* set_entry_value *)
+  | _ => None
+  end.
+
+Fixpoint sysloc_builders (s : sysloc) (l : list sx) : option sysloc :=
+  match l with
+  | [] => Some s
+  | o :: r => match sysloc_builder s o with Some s' => sysloc_builders s' r | None => None end
+  end.
+
+(* fn len(): 4 * initiators + 4 * targets + 2 * entries + 32  (usize; cannot overflow for vectors that exist) *)
+Definition sysloc_len (s : sysloc) : N :=
+  4 * hm_len (sl_inits s) + 4 * hm_len (sl_targets s) + 2 * hm_len (sl_entries s) + 32.
+
+Definition hm_words (l : list N) : list N := concat (map w2 l).
+Definition hm_dwords (l : list N) : list N := concat (map d4 l).
+
+Definition sysloc_bytes (s : sysloc) : list N :=
+  w2 1 ++ w2 0 ++ d4 (sysloc_len s) ++ b1 (sl_flags s) ++ b1 (sl_dt s) ++ b1 (sl_mts s) ++ b1 0 ++
+  d4 (hm_len (sl_inits s)) ++ d4 (hm_len (sl_targets s)) ++ d4 0 ++ q8 (sl_unit s) ++
+  hm_dwords (sl_inits s) ++ hm_dwords (sl_targets s) ++ hm_words (sl_entries s).
+
+(* ---- MemorySideCache ---- *)
+Definition msc_attributes (total level assoc policy line : N) : N :=
+  N.lor (N.lor (N.lor (N.lor total (N.shiftl level 4)) (N.shiftl assoc 8)) (N.shiftl policy 12)) (N.shiftl (cast U16 line) 16).
+
+Definition msc_len (handles : list N) : N := 32 + hm_len handles * 2.
+
+(* to_aml_bytes: assert!(smbios_handles.len() <= u16::MAX) first *)
+Definition msc_bytes (pd size attrs : N) (handles : list N) : option (list N) :=
+  do _ <- assert (hm_len handles <=? 65535);
+  Some (w2 2 ++ w2 0 ++ d4 (msc_len handles) ++ d4 pd ++ d4 0 ++ q8 size ++ d4 attrs ++ w2 0 ++ w2 (hm_len handles) ++
+        hm_words handles).
+
+(* ---- table ---- *)
+Definition hmat_new (c : sx) : option tbl :=
+  match c with
+  | SL [o; t; r] =>
+      do h <- sx_hdr [72; 77; 65; 84] 1 o t r;          (* "HMAT" *)
+      Some (tbl_new KHmat h [])
+  | _ => None
+  end.
+
+Definition hmat_add (claimed : N) (bytes : list N) : addition :=
+  {| a_style := SumAdd; a_claimed := claimed; a_bytes := bytes; a_returns := false; a_flag := false |}.
+
+(* add_*(x): update_header(x.len() as u32, u8sum(&x)); push.  u8sum runs the serialiser (and its asserts). *)
+(* the mode matters only for the usize product ni * nt of SystemLocality::new *)
+Definition hmat_addition (md : mode) (s : tbl) (o : sx) : option addition :=
+  match o with
+  | SL [SA 1; SA ipd; SA mpd] => Some (hmat_add 40 (ser_flds (mem_prox ipd mpd)))
+  | SL [SA 2; SA lt; SA dt; SA mts; SA unit; SA ni; SA nt; SL bs] =>
+      do sl0 <- sysloc_new md lt dt mts unit ni nt;
+      do sl <- sysloc_builders sl0 bs;
+      Some (hmat_add (sysloc_len sl) (sysloc_bytes sl))
+  | SL [SA 3; SA pd; SA size; SA total; SA level; SA assoc; SA policy; SA line; SL hs] =>
+      do handles <- sx_nums hs;
+      do b <- msc_bytes pd size (msc_attributes total level assoc policy line) handles;
+      Some (hmat_add (msc_len handles) b)
+  | _ => None
+  end.
+
+Definition hmat_step (md : mode) : tbl -> sx -> option (tbl * list ev) := add_step (hmat_addition md) md.
+
+Definition hmat_case (md : mode) (c : sx) : list ev :=
+  run_history (fun s => Some (tbl_image s)) (hmat_step md) hmat_new c.
